@@ -155,9 +155,40 @@ def plan(tier):
     return "abcd", gen.LENGTH_PATTERNS[4][:3]
 
 
+def trace_equivalence(rec, hub, seed):
+    from ..trace import first_divergence, line_trace, trace_hash
+
+    fd = hub.fd
+    U = gen.universe(fd, {"a": 2, "b": 3, "c": 2})
+    rng = case_nprng(seed, "c07.trace", 0, 0)
+    la = ("b", "a", "c")
+    ops = {"sum_to": lambda x: x.sum_to(("c", "b")), "sum_over": lambda x: x.sum_over(("a",)), "cumsum": lambda x: x.cumsum("a"), "shares": lambda x: x.get_shares_over(("b", "c")),
+           "cast_to": lambda x: x.sum_to(("a",)).cast_to(gen.dimset(fd, U, ("c", "a", "b"))), "sum_values": lambda x: x.sum_values(), "shares_all": lambda x: x.get_shares_over(la)}
+    equal, differing = 0, []
+    n = 0
+    for name, f in ops.items():
+        traces = {}
+        for reg in ("tagged", "real", "taint"):
+            x = fd.FlodymArray(dims=gen.dimset(fd, U, la), values=gen.values_one(reg, rng, gen.shape_of(U, la)))
+            with hub.pause(), line_trace() as seq:
+                try:
+                    f(x)
+                except Exception:
+                    pass
+            traces[reg] = list(seq)
+            n = len(seq)
+        if len({trace_hash(t) for t in traces.values()}) == 1:
+            equal += 1
+        else:
+            differing.append({"op": name, "divergence": first_divergence(traces["tagged"], traces["real"]) or first_divergence(traces["tagged"], traces["taint"])})
+    rec.info("trace_equivalence", {"configurations": equal + len(differing), "same_line_sequence_for_tagged_real_taint": equal, "value_dependent_control_flow": differing, "lines_traced_example": n})
+
+
 def run(rec, hub, tier, seed, shard, nshards, budget):
     fd = hub.fd
     red.register(hub)
+    if shard == 0:
+        trace_equivalence(rec, hub, seed)
     rec.deciding.update({"cast-sum-back", "shares-times-totals"})
     letters, patterns = plan(tier)
     sources = gen.ordered_subsets(letters)
